@@ -22,7 +22,7 @@ from common import *
 import c04_lib as L
 from c14_lib import INJ, NO_AFTER
 import multiprocessing as mp
-import tempfile, shutil, zipfile, pathlib
+import tempfile, shutil, zipfile, pathlib, gc
 
 # ------------------------------------------------------------------------------------ corpus
 CORPUS = {
@@ -181,6 +181,7 @@ def save_case(name, container, k, fail_at, mode, flavour):
         new = k + 1
         close_all()
         m = build(name, new)
+        gc.collect()        # no stale ZipFile objects whose __del__ would add calls to the log
         _, exc, log, fired = INJ.run(lambda: do_save(m, p, container), fail_at, mode, flavour)
         if fail_at is not None and fired is None:
             return len(log), None, exc, bad          # the save made fewer calls than expected: nothing injected
@@ -268,6 +269,7 @@ def load_case(name, container, collide, fail_at, flavour):
         old = build(name, 2) if collide else None       # an open model with the name stored in the file
         before = list(mx.get_models().values())
         kw = {} if collide else {"name": "L"}
+        gc.collect()
         res_, exc, log, fired = INJ.run(lambda: mx.read_model(p, **kw), fail_at, "before", flavour)
         if fail_at is not None and fired is None:
             return len(log), None, exc, bad
@@ -375,6 +377,7 @@ def survey(task):
         p = os.path.join(w, "m" + (".zip" if container == "zip" else ""))
         close_all()
         m = build(name, x + 1)
+        gc.collect()
         _, exc, log, _ = INJ.run(lambda: do_save(m, p, container))
     else:
         w = os.path.join(work, "w")
@@ -383,6 +386,7 @@ def survey(task):
         close_all()
         if x:
             build(name, 2)
+        gc.collect()
         _, exc, log, _ = INJ.run(lambda: mx.read_model(p, **({} if x else {"name": "L"})))
     close_all()
     shutil.rmtree(work, ignore_errors=True)
@@ -419,6 +423,8 @@ def select_points(log, tier, kind):
                 pts.append((i, "after", "EIO"))
             if kind == "load" and n % 4 == 0:
                 pts.append((i, "before", "ENOENT"))
+            if kind == "save" and label.startswith("ZipFile") and "copy_file" in site:
+                pts.append((i, "before", "EACCES"))     # the retry loop of ziputil.copy_file
     return pts
 
 
@@ -431,7 +437,7 @@ def run(res, tier, seed):
                  "modes: raise instead of the call, raise right after it (not for rename/move); errors: OSError(EIO) / PicklingError%s"
                  % (ks, "every" if tier == "thorough" else "first and last occurrence per (operation, call site) of the",
                     "; FileNotFoundError, PermissionError (archive writes) and raise-after on first/middle/last occurrence per (operation, call site)"
-                    if tier == "thorough" else ", FileNotFoundError on a quarter of the load points"))
+                    if tier == "thorough" else ", FileNotFoundError on a quarter of the load points, PermissionError on the archive calls of copy_file"))
     res.rule = ("exhaustive over the bound; one evaluation = one injected fault followed by the whole contract (4 slots read back, registry, flags, "
                 "model, following save and load); non-trivial when the fault fired (the call with that index was reached); "
                 "distinct = distinct (scenario, call index, mode, error)")
